@@ -88,7 +88,8 @@ func MergeNodes(left, right Node, document *Document) (Node, error) {
 			}
 		}
 
-		r.AddNode(child)
+		// The result must not share nodes with right.
+		r.AddNode(DeepCopy(child, document))
 	next:
 	}
 
